@@ -142,6 +142,7 @@ func runC11(c *Ctx) {
 	checkRemovalSteps(c)
 	checkRebuildAndCLIRemoval(c)
 	checkForgetsAfterRemoval(c, "R14.2")
+	checkExcerptsDeletedOnlyByRemoval(c, "R11.13")
 	// the live snapshot keeps the staging order; so must what Commit stores and a rebuild reads back (shared with C04)
 	checkAuthorSplit(c)
 	checkSingleInstance(c, newLockWorld(w))
